@@ -214,7 +214,7 @@ Print Assumptions c03_model_passes_check.
 (** its hypotheses hold of a concrete case built from the model's run of the example history *)
 Example c03_model_passes_check_nonvacuous :
   hyps_b exCase = true /\ table_ok exCase /\ Vw exCase 5 (case_init exCase) 0 (k_obs0 exCase)
-  /\ trace_ok exCase 5 (case_init exCase) (k_obs0 exCase) (k_steps exCase) /\ length (k_steps exCase) = 13%nat.
+  /\ trace_ok exCase 5 (case_init exCase) (k_obs0 exCase) (k_steps exCase) /\ length (k_steps exCase) = 16%nat.
 Proof. split; [exact exCase_hyps|]. split; [exact exCase_table|]. split; [exact exCase_init_view|]. split; [exact exCase_trace|reflexivity]. Qed.
 
 (** ** Non-vacuity: the hypotheses hold of a concrete history ([Htlc/Examples.v]) that walks all
